@@ -458,6 +458,42 @@ def run(ctx):
                 absence = absence or n
                 atexts.append("any({} for {} in {})".format(ast.unparse(n.body[0].test), ast.unparse(n.target), ast.unparse(n.iter)))
         ctx.need(absence is not None, "the `not any(... startswith('[PK]') ...)` absence test vanished")
+        # the absence test must look at EVERY parameter: an explicit [PK] may sit on any column, whatever it is called
+        # (the emitter writes primary_key=True for every doc that starts with [PK]); a test that ranges over a subset
+        # — the key-looking names only — overlooks it and a second key is promoted
+        from .c02 import elementwise
+
+        recvs = {norm(s_.targets[0].value.value) if isinstance(s_, ast.Assign) and isinstance(s_.targets[0].value, ast.Subscript) else (norm(s_.targets[0].value) if isinstance(s_, ast.Assign) else None) for s_ in stores}
+        recvs.discard(None)
+        if isinstance(absence, ast.If):
+            arg = absence.test.operand
+            while isinstance(arg, ast.Call) and norm(arg.func) in ("any", "list", "tuple") and arg.args:
+                arg = arg.args[0]
+            ew = elementwise(arg)
+            scanned = ew[0] if ew is not None else None
+            filtered = bool(ew[3]) if ew is not None and not (isinstance(arg, ast.Call) and norm(arg.func) == "filter") else False
+            if isinstance(arg, ast.Call) and norm(arg.func) == "filter" and len(arg.args) == 2:
+                inner = elementwise(arg.args[1])
+                scanned = inner[0] if inner is not None else arg.args[1]
+                filtered = bool(inner[3]) if inner is not None else False
+        else:
+            scanned, filtered = absence.iter, False
+        if scanned is not None:
+            from ..defuse import expand_aliases
+
+            st = " ".join(norm(expand_aliases(ehp, scanned, keep=tuple(recvs))).split())
+            whole = any(st in (r_ + ".values()", r_ + ".items()", r_, r_ + ".keys()") for r_ in recvs) and not filtered
+            ctx.ob(
+                "C05.pk",
+                ehp,
+                "the absence test looks at every parameter",
+                whole,
+                ""
+                if whole
+                else "the test that no column carries [PK] yet ranges over `{}`, not over all of {}: an explicit [PK] on a column "
+                "outside that subset is overlooked and a second primary key is introduced".format(short(scanned, 60), sorted(recvs)),
+                line=absence.lineno,
+            )
         arms = []
         for s in stores:
             facts = facts_at.get(id(s)) or {}
